@@ -9,6 +9,7 @@ package transformer
 
 import (
 	"fmt"
+	"io"
 	"strings"
 	"unicode/utf8"
 
@@ -18,6 +19,8 @@ import (
 )
 
 //verif:redirect gopkg.in/yaml.v3.Unmarshal verifYAMLUnmarshal
+//verif:redirect gopkg.in/yaml.v3.NewDecoder verifYAMLNewDecoder
+//verif:redirect (*gopkg.in/yaml.v3.Decoder).Decode verifYAMLDecode
 
 type verifNode struct {
 	kind  int // 0 missing, 1 !!str, 2 !!int, 3 !!map, 4 !!null, 5 !!seq
@@ -32,6 +35,10 @@ type verifNode struct {
 
 var verifYAMLSchema, verifYAMLContents *verifNode
 var verifYAMLFail bool
+
+// verifYAMLTrailing: text behind the first YAML document (1: a second document after `---`, 2: text that is not
+// YAML after `...`).  yaml.Unmarshal decodes the first document and never looks at the rest (stub and library alike).
+var verifYAMLTrailing int
 
 var verifTags = []string{"", "!!str", "!!int", "!!map", "!!null", "!!seq"}
 
@@ -76,6 +83,32 @@ func verifYAMLUnmarshal(in []byte, out interface{}) error {
 	verifYAMLSchema.fill(&y.Schema)
 	verifYAMLContents.fill(&y.Contents)
 	return nil
+}
+
+// the decoder form of the same contract (yaml.NewDecoder + Decode per document): the first Decode is Unmarshal of the
+// first document, the next one reports what stands behind it - io.EOF, a second document, or a syntax error
+var verifYAMLDecodes int
+
+func verifYAMLNewDecoder(r io.Reader) *yaml.Decoder {
+	verifYAMLDecodes = 0
+	return &yaml.Decoder{}
+}
+
+func verifYAMLDecode(_ *yaml.Decoder, out interface{}) error {
+	verifYAMLDecodes++
+	if verifYAMLDecodes == 1 {
+		return verifYAMLUnmarshal(nil, out)
+	}
+	switch verifYAMLTrailing {
+	case 1:
+		if n, ok := out.(*yaml.Node); ok {
+			n.Kind, n.Line, n.Column = yaml.DocumentNode, 4, 1
+		}
+		return nil
+	case 2:
+		return fmt.Errorf("yaml: stubbed syntax error behind the first document")
+	}
+	return io.EOF
 }
 
 func verifQuoteYAML(s string) string {
@@ -277,6 +310,12 @@ func verifC15Check(schema, contents *verifNode, fail bool) {
 		} else {
 			text = verifRenderYAML(schema, contents)
 			verifNativeView(text, schema, contents)
+			switch verifYAMLTrailing {
+			case 1:
+				text += "---\nschema: '1.1'\ncontents:\n  - /etc/passwd\n"
+			case 2:
+				text += "...\n}{ not yaml: [\n"
+			}
 		}
 	}
 	verifYAMLSchema, verifYAMLContents, verifYAMLFail = schema, contents, fail
@@ -284,6 +323,13 @@ func verifC15Check(schema, contents *verifNode, fail bool) {
 	if fail {
 		zzverif.Assert(mod == nil && err != nil, "yaml-error-is-returned")
 		zzverif.Reach("yaml-error")
+		return
+	}
+	if verifYAMLTrailing != 0 {
+		// whatever stands behind the first document is part of the manifest: a second document or text that does not
+		// parse must be reported, not ignored
+		zzverif.Assert(mod == nil && err != nil, "text-behind-the-first-document-is-reported")
+		zzverif.Reach("rejected")
 		return
 	}
 	// expected offending entries, as far as the harness' own oracle decides
@@ -385,14 +431,14 @@ func verifC15Check(schema, contents *verifNode, fail bool) {
 func verifItemRejected(v string) bool {
 	s := &verifNode{kind: 1, value: "1.2", line: 1, col: 1}
 	c := &verifNode{kind: 5, line: 1, col: 1, items: []*verifNode{{kind: 1, value: v, line: 1, col: 1}}}
-	save1, save2, save3 := verifYAMLSchema, verifYAMLContents, verifYAMLFail
-	verifYAMLSchema, verifYAMLContents, verifYAMLFail = s, c, false
+	save1, save2, save3, save4 := verifYAMLSchema, verifYAMLContents, verifYAMLFail, verifYAMLTrailing
+	verifYAMLSchema, verifYAMLContents, verifYAMLFail, verifYAMLTrailing = s, c, false, 0
 	text := ""
 	if !zzverif.Symbolic() {
 		text = verifRenderYAML(s, c)
 	}
 	_, err := TransformModFile(text)
-	verifYAMLSchema, verifYAMLContents, verifYAMLFail = save1, save2, save3
+	verifYAMLSchema, verifYAMLContents, verifYAMLFail, verifYAMLTrailing = save1, save2, save3, save4
 	return err != nil
 }
 
@@ -453,6 +499,7 @@ func VerifC15_Manifest() {
 			contents.items = append(contents.items, n)
 		}
 	}
+	verifYAMLTrailing = zzverif.Choose("text-behind-the-document", 1+2*zzverif.Param("TRAILING", 0))
 	verifC15Check(schema, contents, false)
 }
 
